@@ -1,6 +1,6 @@
 (* C08 - The table manager's log records exactly what was played (every schedule).
    Only statements, each closed by [exact]; proofs are in the files imported below. *)
-From BE Require Import Model.Session Model.SessionTie Spec.SessionSpec Proofs.Kahn Proofs.Session Proofs.SessionExamples Model.Conform Model.Json Proofs.RecordSpec Proofs.SessionPassOut Proofs.Wire Proofs.SessionConform Proofs.SessionConformLog Gen.JsonFns Proofs.JsonGen.
+From BE Require Import Model.Session Model.SessionTie Spec.SessionSpec Proofs.Kahn Proofs.Session Proofs.SessionExamples Model.Conform Model.Json Proofs.RecordSpec Proofs.SessionPassOut Proofs.Wire Proofs.SessionConform Proofs.SessionConformLog Gen.JsonFns Proofs.JsonGen Gen.ScoreFns Proofs.ScoreGen.
 From BE Require Import Gen.Skeleton Proofs.SkeletonPin.
 From Coq Require Import ZArith.
 Local Open Scope nat_scope.
@@ -102,6 +102,12 @@ Theorem C08_conforming_session_log_every_schedule :
       length l' <= n /\ (sfinal s' -> s' = f).
 Proof. exact conforming_session_log_every_schedule. Qed.
 Print Assumptions C08_conforming_session_log_every_schedule.
+
+(* calc_score REGENERATED from score.py on every run (with the numbers re-read from the source) equals the scoring function the session model uses *)
+Theorem C08_generated_score_is_hand_model :
+  forall k t, g_calc_score k t = calc_score k t.
+Proof. exact g_calc_score_eq. Qed.
+Print Assumptions C08_generated_score_is_hand_model.
 
 (* the JSON value of a record as built by JsonLogWriter.write REGENERATED from writer.py on every run is record_json of the model *)
 Theorem C08_generated_record_writer_is_hand_model :
